@@ -12,6 +12,7 @@ and both halves of a split non-empty.
 import BBProofs.RefPolicy
 import BBProofs.GenEq3
 import BBProofs.GenEq2
+import BBProofs.GenEq13
 
 namespace BB
 
@@ -93,5 +94,79 @@ theorem C07_code_leaf (expf : Rat → Rat) (cfg : Cfg) (c s : Clu) (child scent 
         then PV.bool true :: stateOf (c.merge s) child
         else PV.bool false :: stateOf c child :=
   gen_merge_subcluster expf cfg.merge cfg.thr c s child scent schild hc hs hlen hn hnew hold hO
+
+/-! ### the code: the insertion step `_BFNode.insert_bf_subcluster` as translated from `/repo` on this run
+
+The five clauses of the algorithm, for the code (entry list, centroid cache, what is asked of other objects — in this order —
+and the "split me" flag).  Inputs: the routing decision, whether the closest entry has a child, the result of the merge
+attempt / of the recursive call, the halves returned by `_split_node`; see `BBProofs/GenEq13.lean`. -/
+
+/-- code (1): an empty node takes the nominee as its only entry -/
+theorem C07_code_insert_empty (expf : Rat → Rat) (buf log : List Nat) (h c : Nat) (hb : 0 < buf.length)
+    (fn thr x1 x2 x3 x4 x5 x6 x7 x8 x9 x10 x11 : PV) :
+    BBGen._BFNode_insert_bf_subcluster expf (PV.arr .big []) (PV.arr .big buf) (PV.arr .big log) (PV.int h) fn thr
+        x1 x2 x3 x4 x5 x6 x7 x8 x9 x10 x11 (PV.int c)
+      = [PV.bool false, PV.arr .big [h], PV.arr .big (buf.set 0 c), PV.arr .big log] :=
+  gen_insert_empty expf buf log h c hb fn thr x1 x2 x3 x4 x5 x6 x7 x8 x9 x10 x11
+
+/-- code (2)/(3): at a leaf the closest entry is asked to merge (exactly one `merge_subcluster` call, on the entry the routing
+chose); accepted → entries unchanged, its cache row refreshed, no split; refused → the nominee is appended, and the node asks
+to be split iff it now holds more than `branching_factor` entries -/
+theorem C07_code_insert_leaf (expf : Rat → Rat) (subs buf log : List Nat) (h c i cNew : Nat)
+    (hne : subs ≠ []) (hi : i < subs.length) (hlen : subs.length < buf.length) (fn thr x1 x2 x5 x7 x8 x9 x10 x11 : PV) :
+    BBGen._BFNode_insert_bf_subcluster expf (PV.arr .big subs) (PV.arr .big buf) (PV.arr .big log) (PV.int h) fn thr
+        x1 x2 (PV.int i) PV.pynone (PV.int cNew) (PV.bool true) x7 x8 x9 x10 x11 (PV.int c)
+      = [PV.bool false, PV.arr .big subs, PV.arr .big (buf.set i cNew), PV.arr .big (log ++ [1, subs[i], h])] ∧
+    BBGen._BFNode_insert_bf_subcluster expf (PV.arr .big subs) (PV.arr .big buf) (PV.arr .big log) (PV.int h) fn thr
+        x1 x2 (PV.int i) PV.pynone x5 (PV.bool false) x7 x8 x9 x10 x11 (PV.int c)
+      = [PV.bool (decide (buf.length - 1 < subs.length + 1)), PV.arr .big (subs ++ [h]), PV.arr .big (buf.set subs.length c),
+         PV.arr .big (log ++ [1, subs[i], h])] :=
+  ⟨gen_insert_leaf_merge expf subs buf log h c i cNew hne hi hlen fn thr x1 x2 x7 x8 x9 x10 x11,
+   gen_insert_leaf_append expf subs buf log h c i hne hi hlen fn thr x1 x2 x5 x7 x8 x9 x10 x11⟩
+
+/-- code (4)/(5): at an inner node the nominee descends into the child of the closest entry (exactly one recursive call, on
+that child); if the child must be split, `_split_node` is called on it and the tracking entry is replaced in place by the
+first half, the second appended, and the node asks to be split iff it now holds more than `branching_factor` entries;
+otherwise the tracking entry is updated with the nominee and its cache row refreshed -/
+theorem C07_code_insert_inner (expf : Rat → Rat) (subs buf log : List Nat) (h i tok h1 h2 c1 c2 cUpd : Nat)
+    (hne : subs ≠ []) (hi : i < subs.length) (hlen : subs.length < buf.length) (hfirst : subs.idxOf? subs[i] = some i)
+    (fn thr x1 x5 x6 x7 x8 x9 x10 x11 xc : PV) :
+    BBGen._BFNode_insert_bf_subcluster expf (PV.arr .big subs) (PV.arr .big buf) (PV.arr .big log) (PV.int h) fn thr
+        x1 (PV.bool true) (PV.int i) (PV.int tok) x5 x6 (PV.int h1) (PV.int c1) (PV.int h2) (PV.int c2) x11 xc
+      = [PV.bool (decide (buf.length - 1 < subs.length + 1)), PV.arr .big (subs.set i h1 ++ [h2]),
+         PV.arr .big ((buf.set i c1).set subs.length c2), PV.arr .big (log ++ [2, tok, h, 3, tok])] ∧
+    BBGen._BFNode_insert_bf_subcluster expf (PV.arr .big subs) (PV.arr .big buf) (PV.arr .big log) (PV.int h) fn thr
+        (PV.int cUpd) (PV.bool false) (PV.int i) (PV.int tok) x5 x6 x7 x8 x9 x10 x11 xc
+      = [PV.bool false, PV.arr .big subs, PV.arr .big (buf.set i cUpd), PV.arr .big (log ++ [2, tok, h, 4, subs[i], h])] :=
+  ⟨gen_insert_inner_split expf subs buf log h i tok h1 h2 c1 c2 hne hi hlen hfirst fn thr x1 x5 x6 x11 xc,
+   gen_insert_inner_update expf subs buf log h i tok cUpd hne hi hlen fn thr x5 x6 x7 x8 x9 x10 x11 xc⟩
+
+/-- code vs model at a leaf: with the model's routing decision and acceptance as the inputs `closest_idx` and
+`merge_was_successful`, and `cap = len(buf) - 1`, the code's flag and number of entries are those of `insertLeaf` -/
+theorem C07_code_leaf_conforms (expf : Rat → Rat) (P : Policy) (l : LeafN) (s cl : Clu) (next : Nat)
+    (subs buf log : List Nat) (h c cNew : Nat) (hne : subs ≠ []) (hlen : subs.length < buf.length)
+    (hl : l.subs.length = subs.length) (hcap : l.cap = buf.length - 1)
+    (hi : P.route l.cache s.cent < subs.length) (hc : l.subs[P.route l.cache s.cent]? = some cl)
+    (fn thr x1 x2 x7 x8 x9 x10 x11 : PV) :
+    let out := BBGen._BFNode_insert_bf_subcluster expf (PV.arr .big subs) (PV.arr .big buf) (PV.arr .big log) (PV.int h) fn thr
+        x1 x2 (PV.int (P.route l.cache s.cent)) PV.pynone (PV.int cNew) (PV.bool (P.accept cl s)) x7 x8 x9 x10 x11 (PV.int c)
+    out.getD 0 PV.pynone = PV.bool (insertLeaf P l s next).over ∧
+    PV.len (out.getD 1 PV.pynone) = PV.int (insertLeaf P l s next).node.subs.length := by
+  intro out
+  have hlne : l.subs ≠ [] := by
+    intro h0; rw [h0] at hl; simp at hl; exact hne (List.eq_nil_of_length_eq_zero hl.symm)
+  obtain ⟨_, hacc, hrej⟩ := insertLeaf_cases P l s next
+  cases ha : P.accept cl s with
+  | true =>
+    obtain ⟨h1, h2⟩ := hacc cl hlne hc ha
+    have := gen_insert_leaf_merge expf subs buf log h c (P.route l.cache s.cent) cNew hne hi hlen fn thr x1 x2 x7 x8 x9 x10 x11
+    simp only [out, ha, this, List.getD_cons_zero, List.getD_cons_succ, h1, h2, PV.len, hl]
+    exact ⟨trivial, trivial⟩
+  | false =>
+    obtain ⟨h1, h2⟩ := hrej cl hlne hc ha
+    have := gen_insert_leaf_append expf subs buf log h c (P.route l.cache s.cent) hne hi hlen fn thr x1 x2 (PV.int cNew) x7 x8 x9 x10 x11
+    simp only [out, ha, this, List.getD_cons_zero, List.getD_cons_succ, h1, h2, PV.len, hl, hcap, List.length_append,
+      List.length_singleton]
+    exact ⟨trivial, by push_cast⟩
 
 end BB
